@@ -15,7 +15,7 @@
 EXTENDS Integers, Sequences, FiniteSets, SequencesExt, TLC
 
 CONSTANTS MaxLen,      \* bound on the list length in the model
-          Items,       \* subset of 1..9 used by the model
+          Items,       \* subset of 1..10 used by the model
           Det,         \* naming policy, see above
           CopyKinds    \* subset of {"copy","copycopy","deepcopy","pickle"}
 
@@ -31,14 +31,15 @@ vars == <<items, names, hascopy, items2, names2>>
 (* 1,2: two different items called "a";  3,4: two EQUAL (==) items "e";    *)
 (* 5: "append" (a method of list);  6: short name "1x" (digit-leading);    *)
 (* 7: short name "class" (keyword);  8: "a_2" (collides with a generated   *)
-(* name);  9: "x_" (trailing underscore).                                  *)
-Base == <<"a", "a", "e", "e", "append", "_1x", "_class", "a_2", "x_">>
-EqClass == <<1, 2, 3, 3, 5, 6, 7, 8, 9>>
+(* name);  9: "x_" (trailing underscore);  10: "items" (a method that the   *)
+(* named item list adds on top of list).                                   *)
+Base == <<"a", "a", "e", "e", "append", "_1x", "_class", "a_2", "x_", "items">>
+EqClass == <<1, 2, 3, 3, 5, 6, 7, 8, 9, 10>>
 MaxSuffix == 12
 
 \* Sfx[b][n]: base b uniquified with number n (n = 1: b itself). TLA+ strings are atoms,
 \* so the table is written out.
-Sfx == [b \in {"a", "e", "append", "_1x", "_class", "a_2", "x_"} |->
+Sfx == [b \in {"a", "e", "append", "_1x", "_class", "a_2", "x_", "items"} |->
   CASE b = "a" -> <<"a","a_2","a_3","a_4","a_5","a_6","a_7","a_8","a_9","a_10","a_11","a_12">>
     [] b = "e" -> <<"e","e_2","e_3","e_4","e_5","e_6","e_7","e_8","e_9","e_10","e_11","e_12">>
     [] b = "append" -> <<"append","append_2","append_3","append_4","append_5","append_6","append_7",
@@ -49,7 +50,9 @@ Sfx == [b \in {"a", "e", "append", "_1x", "_class", "a_2", "x_"} |->
                          "_class_8","_class_9","_class_10","_class_11","_class_12">>
     [] b = "a_2" -> <<"a_2","a_2_2","a_2_3","a_2_4","a_2_5","a_2_6","a_2_7","a_2_8","a_2_9","a_2_10",
                       "a_2_11","a_2_12">>
-    [] b = "x_" -> <<"x_","x_2","x_3","x_4","x_5","x_6","x_7","x_8","x_9","x_10","x_11","x_12">>]
+    [] b = "x_" -> <<"x_","x_2","x_3","x_4","x_5","x_6","x_7","x_8","x_9","x_10","x_11","x_12">>
+    [] b = "items" -> <<"items","items_2","items_3","items_4","items_5","items_6","items_7","items_8","items_9",
+                        "items_10","items_11","items_12">>]
 
 \* attribute names of the list type that an item name could shadow
 Methods == {"append", "insert", "extend", "remove", "pop", "clear", "copy", "keys", "values", "items",
